@@ -972,7 +972,7 @@ func (x *Explorer) inlinable(c ssa.CallInstruction, frames []frame) *ssa.Functio
 	if _, isCall := c.(*ssa.Call); !isCall {
 		return nil
 	}
-	f := c.Common().StaticCallee()
+	f := EffCallee(c.(*ssa.Call)) // (a literal applied through a predicate HOF is entered like a helper)
 	if f == nil || !x.P.Transparent(f) || f == x.Fn {
 		return nil
 	}
@@ -1097,7 +1097,13 @@ func (x *Explorer) Run() []Hit {
 					hid := "_h" + itoa(helperIDs[fr.fn])
 					inHelper := func(k string) bool { return hasHelperReg(k, hid) }
 					origin := map[string]string{}
-					if cv := fr.call.Value(); cv != nil {
+					cvRet := fr.call.Value()
+					if cc, isCall := fr.call.(*ssa.Call); isCall {
+						if hf, _ := hofLiteral(cc); hf != nil && (cvRet == nil || !isBoolType(cvRet.Type())) {
+							cvRet = nil // e.g. slices.IndexFunc: the result is an index, not the literal's verdict
+						}
+					}
+					if cv := cvRet; cv != nil {
 						res := func(r ssa.Value, name string) string {
 							k := x.key(r, st)
 							if len(k) <= maxKeyLen && !inHelper(k) {
@@ -1197,7 +1203,27 @@ func (x *Explorer) Run() []Hit {
 						// enter the helper: bind parameters to argument keys
 						x.addRegs(callee)
 						args := c.Common().Args
+						hofF, hofMC := hofLiteral(c.(*ssa.Call))
+						if hofF != nil {
+							// the literal's parameters are elements of the sequence: unknown.
+							// The sequence may be empty: the HOF then reports "none" without
+							// running the literal at all
+							args = nil
+							if cv := c.Value(); cv != nil && isBoolType(cv.Type()) {
+								ns := st.clone()
+								ns.Facts[x.rn(cv)] = false
+								ns.Facts["r:"+x.rn(cv)] = false
+								if in == x.From {
+									ns.armed = true
+								}
+								work = append(work, workItem{block: b, start: idx + 1, st: ns, trace: it.trace, frames: it.frames})
+							}
+						}
 						for pi, p := range callee.Params {
+							if hofF != nil {
+								delete(st.alias, x.rn(p))
+								continue
+							}
 							if pi < len(args) {
 								k := x.key(args[pi], st)
 								if len(k) <= maxKeyLen {
@@ -1207,7 +1233,11 @@ func (x *Explorer) Run() []Hit {
 								}
 							}
 						}
-						if mc, isMC := c.Common().Value.(*ssa.MakeClosure); isMC {
+						mc, isMC := c.Common().Value.(*ssa.MakeClosure)
+						if hofMC != nil {
+							mc, isMC = hofMC, true
+						}
+						if isMC {
 							// `func() {...}()`: free variables are the captured cells
 							for fi, fv := range callee.FreeVars {
 								if fi < len(mc.Bindings) {
@@ -1736,4 +1766,9 @@ func (p *Prog) NonNilOnSuccess(fn *ssa.Function) bool {
 	}
 	nnsCache[fn] = 1
 	return true
+}
+
+func isBoolType(t types.Type) bool {
+	b, ok := t.Underlying().(*types.Basic)
+	return ok && b.Kind() == types.Bool
 }
